@@ -257,3 +257,28 @@ def run(ctx: Ctx) -> None:
                 ctx.fail("RF-TABLE", f"falcon-error-body-not-arrow:{owner}:{cls}", fi, None,
                          f"{cls} raised at {e.origin} by {owner} on an RPC route is rendered by Falcon's serializer as JSON, not as a decodable Arrow IPC error stream")
     ctx.require_count("RF-TABLE", n_f, 5, "falcon.HTTPError classes raised from middleware process_request")
+
+    # ------------------------------------------------------------------ F: 415 for unsupported content encodings
+    _content_encoding_415(ctx)
+
+
+def _content_encoding_415(ctx: Ctx) -> None:
+    """415 for an unsupported Content-Encoding is part of C15's mapping; the clauses are decided by the
+    request-decoding analysis of C17 (same source functions) and imported here under C15 keys."""
+    import copy
+
+    from . import c17
+
+    sub = copy.copy(ctx)
+    sub.obligations = []
+    sub.notes = []
+    sub.assumptions = []
+    sub.functions_analysed = set(ctx.functions_analysed)
+    c17.run(sub)
+    picked = [o for o in sub.obligations if "415" in o.instance or "coding" in o.instance]
+    if len(picked) < 4:
+        raise AnalysisError("C15: content-encoding clauses of the C17 analysis not found (anchor drift)")
+    for o in picked:
+        o.instance = "content-encoding:" + o.instance
+        ctx.obligations.append(o)
+    ctx.functions_analysed |= sub.functions_analysed
